@@ -36,27 +36,31 @@ type vfC13Op struct {
 type vfC13Case struct {
 	N          int         `json:"n"`
 	Plotted    []bool      `json:"plotted"`
-	Hold       bool        `json:"hold"`       // hold the first plot (scripted) until all callers are under way
-	Outcome    string      `json:"outcome"`    // outcome of held / automatic plots: complete | abort
+	Hold       bool        `json:"hold"`    // hold the first plot (scripted) until all callers are under way
+	Outcome    string      `json:"outcome"` // outcome of held / automatic plots: complete | abort
 	Callers    [][]vfC13Op `json:"callers"`
 	StopWindow string      `json:"stopWindow"` // "" | popped | step1 : stop the keeper while the plotter is parked there
 	Restarts   int         `json:"restarts"`   // stop/start cycles while the callers run
+	Fast       bool        `json:"fast"`       // scripted plots end without any delay
 }
 
 func vfGenC13(t *rapid.T) vfC13Case {
 	c := vfC13Case{N: rapid.IntRange(1, 3).Draw(t, "n"), Hold: rapid.Bool().Draw(t, "hold"), Outcome: rapid.SampledFrom([]string{"complete", "complete", "abort"}).Draw(t, "outcome"),
-		StopWindow: rapid.SampledFrom([]string{"", "", "", "popped", "step1"}).Draw(t, "window"), Restarts: rapid.IntRange(0, 2).Draw(t, "restarts")}
+		StopWindow: rapid.SampledFrom([]string{"", "", "", "popped", "step1"}).Draw(t, "window"), Restarts: rapid.IntRange(0, 2).Draw(t, "restarts"), Fast: rapid.Bool().Draw(t, "fast")}
 	for i := 0; i < c.N; i++ {
 		c.Plotted = append(c.Plotted, rapid.IntRange(0, 3).Draw(t, "plotted") == 0)
 	}
 	nc := rapid.IntRange(2, 6).Draw(t, "callers")
-	kinds := []string{"plot", "plot", "mine", "mine", "stop", "stop", "remove", "delete", "ids", "infos", "proofs", "bulk:plot", "bulk:mine", "bulk:stop", "flood:plot", "flood:mine"}
+	kinds := []string{"plot", "plot", "mine", "mine", "stop", "stop", "remove", "delete", "ids", "infos", "proofs", "bulk:plot", "bulk:mine", "bulk:stop", "flood:plot", "flood:mine", "churn", "churn"}
 	for i := 0; i < nc; i++ {
 		var ops []vfC13Op
 		for j := rapid.IntRange(1, 8).Draw(t, "nops"); j > 0; j-- {
 			op := vfC13Op{K: rapid.SampledFrom(kinds).Draw(t, "kind"), S: rapid.IntRange(0, c.N-1).Draw(t, "space"), N: rapid.IntRange(1, 15).Draw(t, "flags")}
 			if op.K == "flood:plot" || op.K == "flood:mine" {
 				op.N = rapid.SampledFrom([]int{1, 7, 64, 1020, 1024, 1025, 1100, 2500}).Draw(t, "flood")
+			}
+			if op.K == "churn" {
+				op.N = rapid.SampledFrom([]int{20, 200, 1000}).Draw(t, "churn")
 			}
 			ops = append(ops, op)
 		}
@@ -105,6 +109,7 @@ func vfC13Run(c vfC13Case, ctx *vlib.Ctx) *vlib.Failure {
 	if !c.Hold {
 		env.autoOutcome = c.Outcome
 	}
+	env.autoFast = c.Fast
 	if err := sk.Start(); err != nil {
 		return vlib.Failf("start-failed", "%v", err)
 	}
@@ -206,6 +211,12 @@ func vfC13Run(c vfC13Case, ctx *vlib.Ctx) *vlib.Failure {
 					sk.GetProofs(context.Background(), engine.SFMining, pocutil.Hash{2}, false)
 				case len(op.K) > 5 && op.K[:5] == "bulk:":
 					sk.ActOnWorkSpaces(engine.WorkSpaceStateFlags(op.N), vfActionOf(op.K[5:]))
+				case op.K == "churn":
+					// request and cancel in a tight loop: the plotter sees its queue filled and emptied under its feet
+					for i := 0; i < op.N; i++ {
+						sk.ActOnWorkSpace(sid, engine.Plot)
+						sk.ActOnWorkSpace(sid, engine.Stop)
+					}
 				case len(op.K) > 6 && op.K[:6] == "flood:":
 					for i := 0; i < op.N; i++ {
 						sk.ActOnWorkSpace(sid, vfActionOf(op.K[6:]))
